@@ -133,6 +133,129 @@ V['N15-uuid-len-variable']=[('meta/uuid.go',[('''func (u *UUID) UnmarshalText(te
 	n := len(text)
 	switch n {''')])]
 
+V['N16-loop-form-scanjpeg']=[('jpeg/jpeg.go',[('	for jr.nextMarker() {\n		switch jr.marker >> 4 {','	for {\n		if !jr.nextMarker() {\n			break\n		}\n		switch jr.marker >> 4 {')])]
+V['N17-newifdreader-local']=[('exif2/reader.go',[("""	ir := ifdReader{
+		buffer: bufferPool.Get().(*buffer),
+		logger: l,
+	}
+	ir.buffer.clear()
+	return ir""","""	b := bufferPool.Get().(*buffer)
+	b.clear()
+	return ifdReader{buffer: b, logger: l}""")])]
+V['N18-name-local-xmp']=[('xmp/basic.go',[("""func (basic *Basic) parse(p property) (err error) {
+	switch p.Property().Name() {""","""func (basic *Basic) parse(p property) (err error) {
+	name := p.Property().Name()
+	switch name {""")])]
+V['N19-reorder-cases-parsetag']=[('exif2/parse.go',[("""		case ifds.Artist:
+			ir.Exif.Artist = ir.ParseString(t)
+		case ifds.Copyright:
+			ir.Exif.Copyright = ir.ParseString(t)
+""","""		case ifds.Copyright:
+			ir.Exif.Copyright = ir.ParseString(t)
+		case ifds.Artist:
+			ir.Exif.Artist = ir.ParseString(t)
+""")])]
+V['N20-order-local-parse']=[('exif2/parse.go',[("""	case tag.TypeShort:
+		t.EmbeddedValue(ir.buffer.buf[:4])
+		return uint32(t.ByteOrder.Uint16(ir.buffer.buf[:4]))""","""	case tag.TypeShort:
+		order := t.ByteOrder
+		t.EmbeddedValue(ir.buffer.buf[:4])
+		return uint32(order.Uint16(ir.buffer.buf[:4]))""")])]
+V['N21-ispng-string']=[('imagetype/imagetype.go',[("""	return buf[0] == 0x89 &&
+		buf[1] == 0x50 &&
+		buf[2] == 0x4E &&
+		buf[3] == 0x47""","""	return string(buf[0:4]) == "\\x89PNG\"""")])]
+V['N22-switch-byte-tiff']=[('tiff/tiff.go',[("""			if buf[1] == 0x49 || buf[1] == 0x4d {
+				_, _ = br.Discard(1)
+				discarded++
+				continue
+			}""","""			switch buf[1] {
+			case 0x49, 0x4d:
+				_, _ = br.Discard(1)
+				discarded++
+				continue
+			}""")])]
+V['N23-dims-phash']=[('imagehash/imagehash32.go',[("""	var size image.Point
+	if img != nil {
+		size = img.Bounds().Size()
+	}
+	if img == nil || size.X != 64 || size.Y != 64 {""","""	if img == nil {
+		err = errors.New("error image size incompatible. PHash requires 64x64 image")
+		return
+	}
+	if w, h := img.Bounds().Dx(), img.Bounds().Dy(); w != 64 || h != 64 {""")])]
+V['N24-positive-guard-asm']=[('imagehash/transforms32/transforms32_linux.go',[("""	if c.SubsampleRatio != image.YCbCrSubsampleRatio444 ||
+		c.Rect.Min.X != 0 || c.Rect.Min.Y != 0 ||
+		c.YStride != w || c.CStride != w || w%8 != 0 || w <= 0 || h <= 0 ||
+		len(pixels) < w*h || len(c.Y) < w*h || len(c.Cb) < w*h || len(c.Cr) < w*h {
+		yCbCrToGrayAlt(c, pixels)
+		return
+	}
+	asmYCbCrToGray(pixels,
+		c.Rect.Min.X, c.Rect.Min.Y, c.Rect.Max.X, c.Rect.Max.Y,
+		c.Y, c.Cb, c.Cr, c.YStride, c.CStride)""","""	if c.SubsampleRatio == image.YCbCrSubsampleRatio444 &&
+		c.Rect.Min.X == 0 && c.Rect.Min.Y == 0 &&
+		c.YStride == w && c.CStride == w && w%8 == 0 && w > 0 && h > 0 &&
+		len(pixels) >= w*h && len(c.Y) >= w*h && len(c.Cb) >= w*h && len(c.Cr) >= w*h {
+		asmYCbCrToGray(pixels,
+			c.Rect.Min.X, c.Rect.Min.Y, c.Rect.Max.X, c.Rect.Max.Y,
+			c.Y, c.Cb, c.Cr, c.YStride, c.CStride)
+		return
+	}
+	yCbCrToGrayAlt(c, pixels)""")])]
+V['N25-warn-helper-exif2']=[('exif2/parse.go',[("""	default:
+		if ir.logLevelWarn() {
+			t.logTag(ir.logWarn()).Msg("Unrecognized tag type")
+		}
+	}
+	return 0
+}
+
+// ParseUint16 parses a uint16 value.""","""	default:
+		ir.warnTagType(t)
+	}
+	return 0
+}
+
+func (ir *ifdReader) warnTagType(t Tag) {
+	if ir.logLevelWarn() {
+		t.logTag(ir.logWarn()).Msg("Unrecognized tag type")
+	}
+}
+
+// ParseUint16 parses a uint16 value.""")])]
+V['N26-readexif-order']=[('jpeg/jpeg.go',[("""	var buf []byte
+	remain := int(jr.size) - exifPrefixLength
+
+	if err = jr.discard(2 + exifPrefixLength); err != nil {
+		return err
+	}
+""","""	var buf []byte
+
+	if err = jr.discard(2 + exifPrefixLength); err != nil {
+		return err
+	}
+	remain := int(jr.size) - exifPrefixLength
+""")])]
+V['N27-close-var-isobmff']=[('isobmff/iprp.go',[("""		if err = inner.close(); err != nil && logLevelError() {
+			logError().Object("box", inner).Err(err).Send()
+		}
+	}
+	return b.close()""","""		err = inner.close()
+		if err != nil && logLevelError() {
+			logError().Object("box", inner).Err(err).Send()
+		}
+	}
+	return b.close()""")])]
+V['N28-unmarshal-helper-meta']=[('meta/exifTypes.go',[("""func (em *ExposureMode) UnmarshalText(text []byte) (err error) {
+	*em = mapStringExposureMode[string(text)]
+	return nil
+}""","""func (em *ExposureMode) UnmarshalText(text []byte) (err error) {
+	v := mapStringExposureMode[string(text)]
+	*em = v
+	return nil
+}""")])]
+
 def build(name, edits, out):
     d=tempfile.mkdtemp(prefix='imverif-neutral-',dir='/var/tmp')
     try:
